@@ -73,7 +73,7 @@ fn build(ch: &mut Chooser, fmt: &str) -> (Vec<u8>, Meta, Vec<(String, String)>) 
                 b.defined_names.push((n.clone(), v.clone()));
                 expn.push((n.clone(), v));
             }
-            let e = xlsx::XEnc { prefix: ch.flag("xlsx.prefix"), indent: ch.flag("xlsx.indented"), ..Default::default() };
+            let e = xlsx::XEnc { prefix: ch.flag("xlsx.prefix"), indent: ch.flag("xlsx.indented"), split_text_nodes: ch.flag("xlsx.defined-name-text-split-by-comment"), rels_target_first: ch.flag("xlsx.rels-target-before-type"), ..Default::default() };
             (xlsx::write(&b, &e), m, expn)
         }
         "xlsb" => {
@@ -131,6 +131,7 @@ fn build(ch: &mut Chooser, fmt: &str) -> (Vec<u8>, Meta, Vec<(String, String)>) 
             let mut b = ods::OBook::default();
             b.named_name_last = ch.flag("ods.named-range-name-attribute-last");
             b.indent = ch.flag("ods.document-indented");
+            b.style_name_collision = ch.flag("ods.other-style-families-reuse-table-style-names");
             for s in &m.sheets {
                 b.sheets.push(ods::OSheet { name: s.name.clone(), rows: vec![ods::ORow { cells: vec![(ods::OCell::new(ods::OVal::Float("1".into(), "float")), 1)], repeat: 1 }], display: match s.vis { SheetVisible::Visible => if ch.flag("ods.explicit-display-true") { Some(true) } else { None }, _ => Some(false) } });
             }
